@@ -76,6 +76,9 @@ var dests = []*net.UDPAddr{
 // RFC 8415's REQ_MAX_RC and the 4/5 of RFC 2131 implementations)
 const unboundedObserved = 13
 
+// kindOf: what kind of message the call sends (every kind for every try count)
+func kindOf(sc scenario) int { return sc.Dest + sc.Extra%5 + len(sc.Off) }
+
 // respNonce: which datagram answers (the nonce decides its size: 4 and 7 give exactly 1500 and 1499 octets)
 func respNonce(sc scenario) int { return []int{1, 4, 1, 7, 2}[(sc.Dest+sc.Accept+sc.Extra)%5] }
 
@@ -106,7 +109,7 @@ func run(t *testing.T, sc scenario, want []byte, xid uint32) (res result) {
 			t.Fatal(err)
 		}
 		start := time.Now()
-		req := f.Request(xid, sc.Extra)
+		req := f.Request(xid, sc.Extra).SetKind(kindOf(sc))
 		ctx, cancel := context.WithCancel(context.Background())
 		if sc.CtxDL {
 			var c2 context.CancelFunc
@@ -234,7 +237,7 @@ func judge(r *mon.Rec, t *testing.T, sc scenario) {
 	case 1:
 		xid = 0xffffffff
 	}
-	want := f.Request(xid, sc.Extra).Bytes()
+	want := f.Request(xid, sc.Extra).SetKind(kindOf(sc)).Bytes()
 	var res result
 	pan, val, st := mon.Guard(func() { res = run(t, sc, want, xid) })
 	if pan {
@@ -303,7 +306,7 @@ func judge(r *mon.Rec, t *testing.T, sc scenario) {
 		tryStart := sc.T * time.Duration((int64(1)<<uint(sc.Accept))-1)
 		tryLen := sc.T * time.Duration(int64(1)<<uint(sc.Accept))
 		off := map[string]time.Duration{"start": 0, "inwrite": 0, "middle": tryLen / 2, "last": tryLen - 1}[sc.Off]
-		if !res.returned || res.err != nil || !res.gotMsg || res.resp.Nonce != respNonce(sc) {
+		if !res.returned || res.err != nil || !res.gotMsg || res.resp.Nonce != respNonce(sc) || res.resp.Damaged {
 			bad("response-not-returned", "response accepted in try %d was not returned: returned=%v err=%v nonce=%d", sc.Accept, res.returned, res.err, res.resp.Nonce)
 			return
 		}
